@@ -159,6 +159,18 @@ def find_role(p: Program, what: str, pred, expect=None) -> List[Func]:
 
 def unshipped_modules(p: Program) -> Set[str]:
     """modules that are not imported (transitively) from the shipped console-script modules"""
+    k = getattr(p, "_unshipped_memo", None)
+    if k is not None:
+        return k
+    k = _unshipped_modules(p)
+    try:
+        p._unshipped_memo = k
+    except Exception:
+        pass
+    return k
+
+
+def _unshipped_modules(p: Program) -> Set[str]:
     eps = p.entry_points()
     roots = {d["module"] for d in eps.values()}
     seen = set()
